@@ -31,7 +31,8 @@ Definition bounds_of {X} (tr : list (Z * Z * X)) : list Z :=
 
 Inductive verdict :=
 | VOk (visited : list pair)
-| VDiff (path : list Z) (why : Z)      (* why: 1 flag, 2 actions, 3 transition defined on one side, 4 state 0 re-entered, 5 bad row *)
+| VDiff (path : list Z) (why : Z)      (* why: 1 flag, 2 actions, 3 transition defined on one side, 5 bad row.  Re-entering state 0 in the middle of
+   a token is fine: the run-time tracks the token boundary with its own flag (g_fresh), not with the state number *)
 | VFuel.
 
 (* check one pair; returns the successor pairs to visit *)
@@ -48,16 +49,13 @@ Definition check_pair (p : pair) : option (list (Z * pair)) * Z :=
       let step b :=
         match lookup Z (v_trans vt) b, lookup R (v_trans vr) b with
         | None, None => Some None
-        | Some s', Some r' => if s' =? 0 then None else Some (Some (b, (m, s', r')))
+        | Some s', Some r' => Some (Some (b, (m, s', r')))
         | _, _ => None
         end in
       if forallb (fun b => match step b with Some _ => true | None => false end) pts
       then (Some (flat_map (fun b => match step b with Some (Some x) => [x] | _ => [] end) pts), 0)
       else
-        (* classify the failure *)
-        if existsb (fun b => match lookup Z (v_trans vt) b, lookup R (v_trans vr) b with
-                             | Some s', Some _ => s' =? 0 | _, _ => false end) pts
-        then (None, 4) else (None, 3)
+        (None, 3)
   | _, _ => (None, 5)
   end.
 
